@@ -9,7 +9,16 @@ spec = {"file": path, "mode": "w"|"a"|"r", "seed": int, "phases": [n_ops, ...], 
         "fapl": [low, high] (optional; names of h5py.h5f.LIBVER_*: nixio.file.make_fapl is replaced by one that sets
                  these bounds - the harness's probe of what libhdf5 does with them, never used on the checked path),
         "big": bool, "kill": true|false, "compression": "No"|"DeflateNormal"|"Auto"|null (File-level argument;
-        null = argument omitted)}
+        null = argument omitted),
+        "multi": {"mode2": "a"|"r", "open2": k, "via": ["first"|"second" per phase], "flush_via": [... per flush point],
+                  "end_via": "first"|"second", "close2_at": j (optional)}   (optional) a SECOND File object on the same
+                 path in this process, opened before phase k (k = number of phases: after the writes); the operations
+                 of a phase go through the named object, the flush after a phase / the end call is issued on the named
+                 object; close2_at = j: the flush point after phase j is close() of the second object while the first
+                 stays open.  The promise applies to whichever flush()/close() returned last,
+        "fsize": {"slack": bytes}   (optional) the last phase and the end call run under RLIMIT_FSIZE = size of the file
+                 at the previous flush point + slack with SIGXFSZ ignored (a file that cannot grow: full disk / quota).
+                 An end call that raises is recorded as end_error (no promise made); one that returns has promised}
 END  = "flush" | "close" | "exit" | "exit_exc" | "none" | "flush_flush" | "late" (flush(), then "late_ops" more
        operations of profile "late_profile", their walk recorded as "late_walk", and the kill WITHOUT a further
        flush: informational only - the property promises nothing about writes after the last flush)
@@ -51,6 +60,7 @@ class Gen:
         self.keep = []      # live handles (open HDF5 ids) at the time of flush()/close()
         self.profile = "mixed"
         self.warm = set()   # (block, array) names that received a small append
+        self.raw_keep = True    # also keep raw dataset ids (through the private wrapper) alive
 
     @property
     def strict(self):
@@ -658,7 +668,7 @@ class Gen:
         cands = [blk] + self.arrays(blk)[:4] + list(blk.tags)[:2] + self.all_sections(6)
         self.keep.append(self.pick(cands))
         for da in self.arrays(blk)[:2]:
-            if self.rng.random() < 0.3:
+            if self.raw_keep and self.rng.random() < 0.3:
                 self.keep.append(da._h5group.get_dataset("data"))   # an open dataset id
         if len(self.keep) > 40:
             del self.keep[:10]
@@ -721,32 +731,98 @@ def run(spec):
         _nf.make_fapl = _probe_fapl
 
     holder = {}
+    multi = spec.get("multi") or None
+    fs = spec.get("fsize") or None
+    handles = {}
+    limit_state = {}
+    _KEEP.append(handles)
+
+    def set_limit():
+        # a file that cannot grow any more (full disk / quota): RLIMIT_FSIZE = current size + slack, SIGXFSZ ignored,
+        # so that a write beyond the limit fails with EFBIG instead of ending the process
+        import resource
+        signal.signal(signal.SIGXFSZ, signal.SIG_IGN)
+        soft, hard = resource.getrlimit(resource.RLIMIT_FSIZE)
+        limit_state["old"] = (soft, hard)
+        size = os.path.getsize(path)
+        lim = size + int(fs.get("slack", 512))
+        if hard != resource.RLIM_INFINITY:
+            lim = min(lim, hard)
+        resource.setrlimit(resource.RLIMIT_FSIZE, (lim, hard))
+        out["fsize_limit"] = [size, lim]
+
+    def lift_limit():
+        if "old" in limit_state:
+            import resource
+            resource.setrlimit(resource.RLIMIT_FSIZE, limit_state.pop("old"))
+
+    def open_second():
+        # a second File object on the same path while the first is open (same process)
+        try:
+            handles["second"] = nix.File.open(path, multi["mode2"])
+            out["second_opened"] = multi["mode2"]
+        except Exception as e:       # refused: the history goes on with the first object alone
+            out["open2_error"] = type(e).__name__
+            handles["second"] = None
+
+    def active(which):
+        h = handles.get(which)
+        return h if h is not None else handles["first"]
 
     def body(f):
         g = Gen(nix, f, rng, bool(spec.get("big", True)))
         holder["g"] = g
+        handles["first"] = f
+        if multi:
+            g.raw_keep = False       # only handles the public API hands out are kept alive
         for i, n in enumerate(phases):
+            last = i == len(phases) - 1
+            if multi and multi.get("open2") == i and "second" not in handles:
+                open_second()
+            if multi:
+                via = (multi.get("via") or [])
+                g.f = active(via[i] if i < len(via) else "first")
+            if fs and last:
+                set_limit()
             g.profile = profiles[i] if i < len(profiles) and profiles[i] else "mixed"
             if g.profile != "mixed" and g.profile not in Gen.PROFILES:
                 raise SystemExit("unknown profile %r" % g.profile)
             for _ in range(n):
                 g.step()
-            full, flat = _walks(f)          # reads only; everything a getter creates lazily exists now
-            full2, flat2 = _walks(f)        # a second walk must see the same state (walk is read-only)
-            last = i == len(phases) - 1
+            try:
+                full, flat = _walks(g.f)    # reads only; everything a getter creates lazily exists now
+                full2, flat2 = _walks(g.f)  # a second walk must see the same state (walk is read-only)
+            except Exception as e:
+                if not (fs and last):
+                    raise
+                # writes refused under the size limit left something the walk cannot read: no recorded state,
+                # hence no claim about this generation
+                out["walk_error"] = type(e).__name__
+                out["ops"] = g.log
+                return
             out["flush_points"].append(flat2)
             out["ops"] = g.log
             out["live_handles"] = len(g.keep)
             _KEEP.append(g.keep)
             if not last:
-                f.flush()
+                if multi and multi.get("close2_at") == i and handles.get("second") is not None:
+                    # close() of one File object while the other stays open: a flush point like any close()
+                    handles["second"].close()
+                    handles["second"] = None
+                    out.setdefault("mid", []).append([i, "close-second"])
+                    g.f = handles["first"]
+                else:
+                    fv = (multi.get("flush_via") or []) if multi else []
+                    active(fv[i] if i < len(fv) else "first").flush()
                 # flush is transparent: the in-process view is unchanged by it
-                _, flat3 = _walks(f)
+                _, flat3 = _walks(g.f)
                 if flat3 != flat2:
                     out["transparent"] = {"phase": i, "before": flat2, "after": flat3}
             else:
                 out["final_walk"] = full2
                 out["stable_walk"] = (flat == flat2)
+        if multi and multi.get("open2") == len(phases) and "second" not in handles:
+            open_second()            # opened after the writes
 
     path = spec["file"]
 
@@ -790,14 +866,17 @@ def run(spec):
     else:
         f = open_file()
         body(f)
+        target = active(multi.get("end_via", "first")) if multi else f
         try:
-            if end == "flush":
-                f.flush()
+            if out["final_walk"] is None:
+                pass                 # no recorded state (walk refused under the size limit): nothing is claimed
+            elif end == "flush":
+                target.flush()
             elif end == "flush_flush":
-                f.flush()
-                f.flush()
+                target.flush()
+                target.flush()
             elif end == "close":
-                f.close()
+                target.close()       # the other File object (if any) stays open until the kill
             elif end == "none":
                 pass
             elif end == "late":
@@ -813,6 +892,8 @@ def run(spec):
                 raise SystemExit("unknown end %r" % end)
         except Exception as e:       # a flush()/close() that raises: recorded, the kill still happens
             out["end_error"] = type(e).__name__
+        finally:
+            lift_limit()
     finish()
     if spec.get("kill", True):
         os.kill(os.getpid(), signal.SIGKILL)
